@@ -149,8 +149,24 @@ class SArray:
     def __array_function__(s, func, types, args, kwargs):
         h = HANDLED.get(func)
         if h is None:
-            raise Unsupported(f'numpy function {func.__module__}.{func.__name__}')
+            return _concrete_fallback(func, args, kwargs)
         return h(*args, **kwargs)
+
+def _concrete_fallback(func, args, kwargs):
+    '''functions without a symbolic model: allowed when every array operand is fully concrete (e.g. constant index arrays)'''
+    def conv(x):
+        if isinstance(x, SArray):
+            if not all(is_concrete(v) for v in x.a.flat): raise Unsupported(f'numpy function {func.__module__}.{func.__name__} on symbolic data')
+            return x.a.astype(NPDT[x.kind])
+        if isinstance(x, Sym): raise Unsupported(f'numpy function {func.__name__} on symbolic scalar')
+        if isinstance(x, (list, tuple)): return type(x)(conv(y) for y in x)
+        return x
+    r = func(*[conv(a) for a in args], **{k: conv(v) for k, v in kwargs.items()})
+    def wrap(y):
+        if isinstance(y, numpy.ndarray) and y.dtype != object: return SArray.wrap(y)
+        if isinstance(y, tuple): return tuple(wrap(z) for z in y)
+        return y
+    return wrap(r)
 
 def _binop(uf, swap=False):
     def op(s, o):
